@@ -25,7 +25,6 @@ RULE = ("all 48 codes x sizes whose slice count is smaller than / equal to / a m
         "of the chunk depth x chunk sizes 1..5 x storage options (deep/flat, gzip/plain, sharded); PNG and "
         "TIFF slices, 8/16-bit grey and RGB, one or two directories; pixel values random. "
         "non-trivial = at least two slice groups or a non-identity orientation")
-F_REV = "slices-reversed-axis-abort"
 
 AX = {"R": 0, "L": 0, "A": 1, "P": 1, "S": 2, "I": 2}
 POSITIVE = set("RAS")
@@ -133,7 +132,6 @@ def run(R):
     R.rule = RULE
     rng = R.rng
     quick = R.tier == "quick"
-    known_ids = {f["id"] for f in R.findings}
 
     # ------------------------------------------------------------ tables (DESIGN 3.4)
     tie = tables.check(R, "C15")
@@ -173,13 +171,15 @@ def run(R):
         if impl != model_outcome(rep):
             R.disagree("permute", case, impl, model_outcome(rep))
     sl = []
-    for _ in range(300):
+    for _ in range(400):
         n = rng.randrange(0, 7)
-        sl.append((n, rng.randrange(-n - 2, n + 3), rng.randrange(-n - 2, n + 3), rng.choice([1, -1])))
-    replies = R.model.batch([("slice_indices", list(c)) for c in sl])
+        stop = rng.choice([None, rng.randrange(-n - 2, n + 3), rng.randrange(-n - 2, n + 3)])
+        sl.append((n, rng.randrange(-n - 2, n + 3), stop, rng.choice([1, -1])))
+    replies = R.model.batch([("slice_indices", [n, a, Atom("none") if b is None else b, st]) for n, a, b, st in sl])
     for (n, a, b, st), rep in zip(sl, replies):
         want = list(range(n))[a:b:st]
         R.case({"len": n, "start": a, "stop": b, "step": st})
+        R.count("slice:" + ("open-stop" if b is None else "closed"))
         if rep != want:
             R.disagree("Python slice semantics vs slice_indices", {"len": n, "slice": [a, b, st]}, want, rep)
 
@@ -303,9 +303,9 @@ def run(R):
         m_coords, m_res = rep[0], model_outcome(rep[1])
         if impl != m_res:
             R.disagree("slices-to-precomputed outcome vs model", case, impl, m_res)
-        if len(rep) < 7:
+        if len(rep) < 6:
             continue
-        m_read, m_des, m_guard, m_fwd, m_wf = rep[2], rep[3], rep[4] == Atom("true"), rep[5] == Atom("true"), rep[6]
+        m_read, m_des, m_wf = rep[2], rep[3], rep[4] == Atom("true")
         if code not in ALL_CODES:
             if impl != ["Refused"]:
                 R.violation("invalid orientation code not refused", case, {"impl": impl})
@@ -343,19 +343,15 @@ def run(R):
                 expect = np.clip(expect.astype(np.int64), ii.min, ii.max).astype(info_t)
             else:
                 expect = expect.astype(info_t)
-        py_guard = code[2] in POSITIVE
-        if py_guard != m_guard:
-            R.disagree("c15_guard classification", case, py_guard, m_guard)
+        if not m_wf:
+            R.disagree("c15_wf classification (every generated job is well formed)", case, True, m_wf)
         ok = impl == ["ok", []] and present.all() and np.array_equal(vol, expect)
         if not ok:
             wrong = int((np.where(pres4, vol, 0) != np.where(pres4, expect, 0)).sum())
-            detail = {"impl": impl, "voxels_present": int(present.sum()), "voxels_total": int(present.size),
-                      "wrong_among_present": wrong}
-            if not py_guard and impl == ["Crash", "ValueError"] and wrong == 0 and F_REV in known_ids:
-                R.known(F_REV)
-            else:
-                R.violation("converted volume differs from the stack oriented as the code designates, "
-                            "or the conversion failed", case, detail)
+            R.violation("converted volume differs from the stack oriented as the code designates, "
+                        "or the conversion failed", case,
+                        {"impl": impl, "voxels_present": int(present.sum()), "voxels_total": int(present.size),
+                         "wrong_among_present": wrong})
 
 
 def replay(R, payload):
